@@ -92,6 +92,11 @@ def gen(args) -> list:
                     p["out"] = "HANG"
                 except BaseException as e:  # noqa: BLE001
                     p["out"] = "raised:" + type(e).__name__
+                    # the text-layer function whose call failed (the deepest frame under pyoda_time/text)
+                    import traceback as _tb
+
+                    fr = [f for f in _tb.extract_tb(e.__traceback__) if "/pyoda_time/text/" in f.filename]
+                    p["site"] = fr[-1].name if fr else "?"
                 finally:
                     signal.alarm(0)
                 ev["parses"].append(p)
@@ -149,9 +154,16 @@ def run(ctx: Ctx):
         if clause.startswith("pattern_creation"):
             k["exc"] = ev["created"]
         else:
-            bad = [x["out"] for x in ev["parses"] if x["out"] not in ("success", "failure")]
+            bad = [x for x in ev["parses"] if x["out"] not in ("success", "failure")]
             if bad:
-                k["exc"] = bad[0]
+                k["exc"] = bad[0]["out"]
+                k["site"] = bad[0].get("site", "?")
+                # which date fields the pattern itself supplies (the others come from the template value)
+                import re as _re
+
+                bare = _re.sub(r"'[^']*'|\"[^\"]*\"|\\.", " ", ptxt)
+                k["year_field"] = bool(_re.search(r"[uy]", bare))
+                k["era_field"] = "g" in bare
         return k
 
     ctx.validate("Trace_TextProtocol", TRACE_CFG, None, shards=parts, key_of=key_of, ntraces=sum(len(p) for p in parts))
